@@ -1,0 +1,20 @@
+//go:build verif
+
+package redis
+
+// Contracts for the verification machinery in /verif (build tag "verif").
+// $range1 is the byte position of the first `range` iterator of the function.
+
+//@ func KeyToSlot
+//@   arith bv
+//@   properties C11 C10 C18
+//@   nopanic
+//@   replay redis_KeyToSlot
+//@   ensures slot_spec: result == digest.SpecHashSlot(key)
+//@   loop 1:
+//@     invariant bounds: 0 <= $range1 && $range1 <= len(key)
+//@     invariant no_tag_yet: len(hashtag) == 0
+//@     invariant no_open_before: digest.SpecFirstIndex(key, '{', 0) == digest.SpecFirstIndex(key, '{', $range1)
+//@   loop 2:
+//@     invariant bounds: i <= k && k <= len(key)
+//@     invariant no_close_before: digest.SpecFirstIndex(key, '}', i) == digest.SpecFirstIndex(key, '}', k)
